@@ -13,7 +13,9 @@ Clauses
   envelope   |J - exact|_ej <= tol[method|1|k-bucket] * S_1(e, j) + 64 eps (|exact| + (n+2) noise_e / h_min)
              (C01 table, overridden per key by constants.json:C03_tol; missing key = weak cell)
   grad-row   Gradient(f)(x) == squeeze(Jacobian(f)(x.ravel())) (same configuration), bitwise
-  direction  |directionaldiff - grad.v/|v|| <= K_DIR (est_dir + sum_j |v_j| est_j / |v|) + floor
+  direction  |directionaldiff - grad.v/|v|| <= K_DIR (est_dir + sum_j |v_j| est_j / |v|) + floor, asserted when
+             both configurations leave >= 2 derivative estimates and reach <= rho_cert/4 (single-estimate error
+             estimates carry no information: DESIGN C02 / F10)
 """
 import json
 import math
@@ -29,8 +31,8 @@ from nverif.oracle import multivar as mv
 EPS = 2.0 ** -52
 CALIBRATE = bool(os.environ.get('NVERIF_CALIBRATE'))
 FLOOR = 64.0
-AFFINE_REAL = 256.0
-AFFINE_CSTEP = 4.0
+AFFINE_REAL = 4096.0
+AFFINE_CSTEP = 64.0
 K_DIR = 1e4
 METHODS = ['central', 'forward', 'backward', 'complex', 'multicomplex']
 GRIDS = [(1, 2), (2, 1), (2, 2), (2, 3), (3, 2), (2, 4), (4, 2), (1, 5), (3, 1)]
@@ -395,7 +397,8 @@ class C03(Prop):
         if isinstance(res, str):
             ctx.skip(res)
         d0, steps0, ratio0, scale0, _base0 = res
-        if len(steps0) - int(np.size(d0.fd_rule.rule(ratio0))) + 1 < 1:
+        k0 = len(steps0) - int(np.size(d0.fd_rule.rule(ratio0))) + 1
+        if k0 < 1:
             ctx.skip('fewer steps than the rule needs (misuse, see C11)')
         with ctx.lib('no-exception', 'directionaldiff(method=%s, order=%d, x %s)' % (method, order, case['xform'])):
             dd, info = nd.directionaldiff(f_dir, x_in, v_in, full_output=True, **made_holder['kw'])
@@ -425,19 +428,47 @@ class C03(Prop):
         diff_forming = difference_forming(method, order)
         condv = float(sum(abs(unit[j]) * an.cond(0, (j,)) for j in range(n)))
         floor = FLOOR * EPS * (mag + (n + 2) * (condv + (an.noise(0) / min(hmin0, hmin) if diff_forming else 0.0)))
+        if diff_forming:
+            # rounding of the function values at the steps the library reports having used (0 +- 0 is a
+            # legitimate answer when every sample rounds to the same float, C02 (a))
+            def clamp(fs, lo, hi):
+                return lo if not math.isfinite(fs) else min(max(fs, lo), hi)
+            try:
+                fs0 = float(np.ravel(np.abs(info.final_step))[0])
+            except Exception:
+                fs0 = math.nan
+            hf0 = clamp(fs0, hmin0, max(float(np.max(t)) for t in steps0))
+            M0 = float(an.majorant(0, tuple(range(n)), [min(w * hf0, an.reach_limit(), mv.R_CAP)])[0])
+            extra = 2.0 * M0 / hf0 if math.isfinite(M0) else 0.0
+            try:
+                fsg = np.ravel(np.abs(np.asarray(ginfo.final_step, dtype=float)))
+            except Exception:
+                fsg = np.full(n, math.nan)
+            hsg = np.array([np.ravel(t) for t in steps])
+            for j in range(n):
+                hf = clamp(float(fsg[j]) if fsg.size == n else math.nan, hsg[:, j].min(), hsg[:, j].max())
+                Mj = float(an.majorant(0, (j,), [min(w * hf, an.reach_limit((j,)), mv.R_CAP)])[0])
+                if math.isfinite(Mj):
+                    extra += abs(unit[j]) * 2.0 * Mj / hf
+            floor += FLOOR * EPS * extra
         diff = abs(dd - rel)
         excess = max(diff - floor, 0.0)
         ratio = excess / est_sum if est_sum > 0 else (0.0 if excess == 0 else math.inf)
-        ctx.track('dir |dd-grad.u|/(est_dir+sum|u_j|est_j)|%s' % method, ratio,
+        kmin = min(k0, k_est)
+        reach = w * max(max(float(np.max(t)) for t in steps0), max(float(np.max(t)) for t in steps))
+        informative = kmin >= 2 and reach <= an.reach_limit() / 2.0
+        ctx.track('dir |dd-grad.u|/(est_dir+sum|u_j|est_j)|%s|%s' % (
+            method, 'k>=2, reach<=rho/4' if informative else 'single estimate or reach>rho/4 (not asserted)'), ratio,
                   dict(prog=mv.describe(prog), x=case['x'], v=case['v'], order=order, step=case['step'],
                        dd=dd, grad_dot_u=rel, exact=exact, est_dir=est_dir, est_sum=est_sum))
-        ctx.track('dir |dd-exact|/mag|%s' % method, abs(dd - exact) / mag if mag > 0 else 0.0)
-        if ratio > K_DIR and not CALIBRATE:
+        if not informative:
+            ctx.count('direction relation not asserted: single-estimate configuration or reach > rho/4 (C02/F10)')
+        if informative and ratio > K_DIR and not CALIBRATE:
             raise Violation('direction', 'directionaldiff=%r but Gradient.v/|v|=%r (exact %r): |diff|=%.3g > '
                             'K(%g)*(est %.3g) + floor(%.3g), method=%s order=%d' % (dd, rel, exact, diff, K_DIR,
                                                                                  est_sum, floor, method, order),
                             ratio=ratio)
-        if K_DIR * est_sum + floor <= abs(exact) / 2 and abs(vnorm - 1.0) > 0.05:
+        if informative and K_DIR * est_sum + floor <= abs(exact) / 2 and abs(vnorm - 1.0) > 0.05:
             ctx.nontriv(self._key(case))
             ctx.count('nontrivial|directional|%s' % method)
         ctx.sample(dict(api='directional', prog=mv.describe(prog), x=case['x'], v=case['v'], method=method,
